@@ -118,20 +118,21 @@ func (p *c05Inner) waitBody(n int64, d time.Duration) (ok bool, got int64) {
 }
 
 type c05Case struct {
-	ID      string `json:"id"`
-	Chunks  []int  `json:"chunks"`
-	PauseMs int    `json:"pause_ms"`
-	SSE     bool   `json:"sse"`
-	CL      bool   `json:"declared_content_length"` // body framed by Content-Length but still produced piece by piece
-	HTML    bool   `json:"html"`                    // text/html response through the agent configured with the websocket shim
-	Wrapped bool   `json:"wrapped"`                 // through the agent with session tracking and the banner (wrapping response writers); request is a page navigation
-	PaceMs  int    `json:"pace_ms"`                 // > 0: free-running producer, one chunk every PaceMs without waiting for the observer
-	Status  int    `json:"status,omitempty"`        // response status (0: 200)
-	Group   string `json:"group,omitempty"`         // concurrent-streams group: after its first chunk every stream of the group waits until all GroupN streams have had theirs observed
-	GroupN  int    `json:"group_size,omitempty"`
-	NoCT    bool   `json:"no_content_type,omitempty"` // the backend declares no Content-Type at all
-	Stall   bool   `json:"stalled_upload,omitempty"` // a large free-running response whose upload the proxy does not read until released (its own progress is not judged)
-	Class   string `json:"class"`
+	ID       string `json:"id"`
+	Chunks   []int  `json:"chunks"`
+	PauseMs  int    `json:"pause_ms"`
+	SSE      bool   `json:"sse"`
+	CL       bool   `json:"declared_content_length"` // body framed by Content-Length but still produced piece by piece
+	HTML     bool   `json:"html"`                    // text/html response through the agent configured with the websocket shim
+	Wrapped  bool   `json:"wrapped"`                 // through the agent with session tracking and the banner (wrapping response writers); request is a page navigation
+	PaceMs   int    `json:"pace_ms"`                 // > 0: free-running producer, one chunk every PaceMs without waiting for the observer
+	Status   int    `json:"status,omitempty"`        // response status (0: 200)
+	Group    string `json:"group,omitempty"`         // concurrent-streams group: after its first chunk every stream of the group waits until all GroupN streams have had theirs observed
+	GroupN   int    `json:"group_size,omitempty"`
+	ListBlip bool   `json:"pending_list_blip,omitempty"` // after the second chunk the proxy fails six pending-list calls in a row (a blip of a few milliseconds)
+	NoCT     bool   `json:"no_content_type,omitempty"`   // the backend declares no Content-Type at all
+	Stall    bool   `json:"stalled_upload,omitempty"`    // a large free-running response whose upload the proxy does not read until released (its own progress is not judged)
+	Class    string `json:"class"`
 }
 
 type c05Outcome struct {
@@ -161,6 +162,15 @@ func C05(r *core.Run) {
 	}
 	defer px.Close()
 	px.ListWait = 100 * time.Millisecond
+	var listBlip int64
+	px.OnList = func(w http.ResponseWriter, req *http.Request) bool {
+		if atomic.LoadInt64(&listBlip) > 0 {
+			atomic.AddInt64(&listBlip, -1)
+			http.Error(w, "scripted blip", 503)
+			return true
+		}
+		return false
+	}
 	var mu sync.Mutex
 	inners := map[string]*c05Inner{}
 	scripts := map[string]c05Case{}
@@ -348,6 +358,13 @@ func C05(r *core.Run) {
 				break
 			}
 			out.latencies = append(out.latencies, time.Since(t0))
+			if i == 1 && c.ListBlip {
+				atomic.StoreInt64(&listBlip, 6)
+				for d := time.Now().Add(3 * time.Second); time.Now().Before(d) && atomic.LoadInt64(&listBlip) > 0; {
+					time.Sleep(time.Millisecond)
+				}
+				time.Sleep(30 * time.Millisecond)
+			}
 			if i == 0 && c.GroupN > 0 {
 				// all streams of the group are open at once: none continues before every one had its first chunk observed
 				mu.Lock()
@@ -530,6 +547,11 @@ func C05(r *core.Run) {
 		c.Class = fmt.Sprintf("fixed|no-content-type|wrapped=%v|n=%d", wrapped, len(c.Chunks))
 		cases = append(cases, c)
 	}
+	// fixed cases: a blip of the pending-list endpoint in the middle of a stream (plain agent), and a backend that falls
+	// silent for 11.5 s between two chunks of a response that is already streaming
+	cases = append(cases,
+		c05Case{ID: fmt.Sprintf("s%dblip", r.Seed), Chunks: []int{100, 100, 100, 4097, 100, 1}, ListBlip: true, PauseMs: 20, Class: "fixed|pending-list-blip-mid-stream"},
+		c05Case{ID: fmt.Sprintf("s%dquiet", r.Seed), Chunks: []int{100, 100}, PauseMs: 11500, SSE: true, Class: "fixed|backend-silent-11.5s-mid-stream"})
 	run := func(cs []c05Case, T time.Duration, par int) {
 		sem := make(chan struct{}, par)
 		var wg sync.WaitGroup
